@@ -22,17 +22,27 @@ from ._conn import op_json, op_unjson
 TRANSLATORS = ["conn"]
 
 MANIFEST = {
-    "text": "Proof: decision theorems over Tls.Conn stated for arbitrary states/histories: after_close_notify (closed is absorbing: "
-            "reads return buffered bytes then empty and never raise, writes raise the closed-connection error, resumable untouched), "
-            "truncation_not_eof, transport_fault_contained (handshake I/O skeleton hsFault and data-phase read/write), "
-            "fatal_alert_surfaced, warning_alert_handled. Tie: exhaustive fault injection at every socket call index of every "
-            "enumerated handshake flavour (SSLv3..TLS1.3, RSA/ECDHE/DHE, ECDSA, client auth, session-ID and ticket resumption, whole and "
-            "chunked transport) compared with hsFault, and data-phase histories (alerts at every position relative to data, aborts, "
-            "dying transport, closeSocket x ignoreAbruptClose) compared op by op with the model; direct oracle from the property text.",
-    "note": "Trusted: Lean kernel, the correspondence harness, the in-memory transport (a fault makes the transport dead from that call "
-            "on: later receives report EOF/reset after the already queued bytes, later sends EPIPE). The handshake itself is modelled "
-            "only as its sequence of socket calls (kind of each call recorded from a clean run).",
-    "technique": "Lean 4 decision theorems; exhaustive fault-injection correspondence on live endpoints; direct oracle",
+    "text": "Proof: decision theorems over Tls.Conn stated for arbitrary states/histories: close_notify_received, after_close_notify "
+            "(closed is absorbing over every later history: reads return buffered bytes then empty and never raise, writes raise the "
+            "closed-connection error, resumable untouched), after_close_each_op, truncation_not_eof, transport_fault_contained "
+            "(handshake I/O skeleton hsFault) with transport_fault_data_recv/_send, fatal_alert_surfaced, warning_alert_handled, "
+            "fatal_alert_in_handshake, makefile_refcount / makefile_then_close (_refCount), close_every_interleaving (all 252 "
+            "interleavings of both endpoints' write/close/read/read/close x closeSocket x protocol generation, kernel-decided). "
+            "Regenerated tie: translate/gen_conn.py reads from the AST of tlsrecordlayer.py the alert handler (reply condition, forgiven "
+            "exceptions, _shutdown arguments), the except clauses of readAsync, the exception->alert mapping, _decrefAsync/makefile "
+            "(reference count, closeSocket branch, wait-loop types, handlers), writeAsync and _sendMsgThroughSocket; "
+            "gen_alert_table_matches_model, gen_alert_reply_errors_forgiven, gen_exc_alert_matches_model, gen_read_except_matches_model, "
+            "gen_close_matches_model, gen_write_and_send_failure_match_model tie them to the model's step functions by kernel "
+            "evaluation (all 4x256 alerts). Tie by correspondence: fault injection of every kind at every socket call index of every "
+            "enumerated handshake flavour vs hsFault, alerts replacing each handshake message vs hsAlert, data-phase histories (alerts "
+            "at every position relative to data, aborts, dying transport, makefile/close reference counting, closeSocket x "
+            "ignoreAbruptClose) op by op; direct oracle from the property text.",
+    "note": "Trusted: Lean kernel, the translator translate/gen_conn.py (unrecognised shapes are emitted as poison values that falsify "
+            "the obligations), the correspondence harness, the in-memory transport (a fault makes the transport dead from that call on: "
+            "later receives report EOF/reset/timeout after the already queued bytes, later sends EPIPE/reset/timeout). The handshake "
+            "itself is modelled only as its sequence of socket calls (kind of each call recorded from a clean run). A stalled close() "
+            "generator is abandoned, not resumed, in model and harness.",
+    "technique": "Lean 4 decision theorems + kernel-decided ties to tables regenerated from the source; exhaustive fault-injection correspondence on live endpoints; direct oracle",
 }
 
 
@@ -724,6 +734,10 @@ def keyed_cases(ctx, lc):
          [("s", "write", b"pending data"), ("c", "kill", 2), ("c", "ku", 1), ("c", "read", None, 1), ("c", "read", None, 0)]),
         ("pha-request-send-failure-with-pending-data", base,
          [("c", "write", b"pending data"), ("s", "kill", 1), ("s", "pha"), ("s", "read", None, 1)]),
+        ("truncation-with-partly-read-buffer", dict(ver=(3, 3), client_cert=False),
+         [("c", "write", b"abc"), ("c", "abort"), ("s", "read", 2, 2), ("s", "read", None, 5), ("s", "read", None, 0)]),
+        ("truncation-with-partly-read-buffer-tls13", base,
+         [("s", "write", b"abcdef"), ("s", "abort"), ("c", "read", 4, 1), ("c", "read", None, 3), ("c", "read", None, 0)]),
         ("heartbeat-send-failure", base, [("c", "kill", 1), ("c", "hb", b"ping", 16), ("c", "read", None, 0)]),
         ("keyupdate-send-failure", base, [("c", "kill", 1), ("c", "ku", 0), ("c", "read", None, 0)]),
         ("heartbeat-response-send-failure", base,
